@@ -111,7 +111,10 @@ pub trait NodeMut {
             return self.insert_before(new_child, Some(old_child));
         }
 
-        let mut next = old_child.next_sibling();
+        // Where the old child stands, and where the new one goes: if the new child follows the
+        // old one it is taken out of that place first, so it goes in front of its own follower.
+        let follower = old_child.next_sibling();
+        let mut next = follower.clone();
         if next.as_ref().map(|v| v.id()) == Some(new_child.id()) {
             next = new_child.next_sibling();
         }
@@ -120,7 +123,8 @@ pub trait NodeMut {
         match self.insert_before(new_child, next.as_ref()) {
             Ok(_) => Ok(old),
             Err(e) => {
-                self.insert_before(old, next.as_ref())?;
+                // Nothing has moved but the old child: it goes back where it stood.
+                self.insert_before(old, follower.as_ref())?;
                 Err(e)
             }
         }
